@@ -4,9 +4,11 @@ import (
 	"bytes"
 	"errors"
 	"fmt"
+	"math/rand"
 	"runtime"
 	"sort"
 	"sync"
+	"sync/atomic"
 
 	"github.com/couchbase/nitro"
 
@@ -116,6 +118,35 @@ func runC10(c *rt.C) {
 	h := BuildHistory(r, db, HistOpt{NKeys: nKeys, Epochs: 2 + r.Intn(6), OpsPerEpoch: nKeys + r.Intn(2*nKeys+1), KeepProb: 0.6, Writers: 1 + r.Intn(3), DeleteBias: 35})
 	maxv, total := h.PhysicalVersions()
 	pairs := 8
+	// every 2nd case: a churn goroutine inserts and (same-epoch) deletes newer versions of the keys
+	// while the visits run on the already created snapshots
+	churn := c.Index%2 == 1
+	var stopChurn int32
+	var churnWG sync.WaitGroup
+	if churn {
+		churnWG.Add(1)
+		go func() {
+			defer churnWG.Done()
+			cr := rand.New(rand.NewSource(c.Seed ^ 0xc10))
+			w := h.Writers[0]
+			for n := 0; atomic.LoadInt32(&stopChurn) == 0 && n < 300000; n++ {
+				kid := cr.Intn(nKeys)
+				if cr.Intn(2) == 0 {
+					w.Delete(db.Item(kid, "x"))
+				} else {
+					w.Put2(db.Item(kid, fmt.Sprintf("c%d", n)))
+				}
+				if n%8 == 0 {
+					runtime.Gosched()
+				}
+			}
+		}()
+	}
+	stop := func() {
+		atomic.StoreInt32(&stopChurn, 1)
+		churnWG.Wait()
+	}
+	defer stop()
 	for si, hs := range h.Snaps {
 		if c.Failed() {
 			break
@@ -145,7 +176,7 @@ func runC10(c *rt.C) {
 			if shards > len(hs.Want) {
 				shCls = "gt-items"
 			}
-			c.Sig("%s/shards=%s/conc=%d/maxv=%d/n=%s", sig, shCls, concurr, min(maxv, 4), sizeClass(len(hs.Want)))
+			c.Sig("%s/shards=%s/conc=%d/maxv=%d/n=%s/churn=%v", sig, shCls, concurr, min(maxv, 4), sizeClass(len(hs.Want)), churn)
 			if si == 0 && p == 0 {
 				c.Sample(map[string]interface{}{"mem": mem, "kv": kv, "keys": nKeys, "open_snapshots": len(h.Snaps), "items": len(hs.Want),
 					"max_versions_per_key": maxv, "physical_nodes": total, "shards": shards, "concurrency": concurr})
@@ -170,6 +201,7 @@ func runC10(c *rt.C) {
 			}
 		}
 	}
+	stop()
 	if !c.Failed() {
 		h.CloseAll()
 		db.N.Close()
@@ -196,7 +228,7 @@ func init() {
 		Technique: "runtime monitoring: callback event log checked for per-shard order, cross-shard partition order and multiset equality with the frozen model copy; injected callback errors",
 		Rule: "each case builds a seeded multi-version history (1-600 keys, snapshots kept open so pivots can be invisible versions) and visits every open snapshot with 8 random (shards ∈ {1,2,3,4,7,NumCPU,items+1,items+5,64}, concurrency ∈ {1,2,3,8,16}) pairs, every 4th with 1-2 injected callback errors, plus every error position for one small snapshot. " +
 			"evaluations = Visitor calls checked; distinct = (outcome incl. number of non-empty shards, shards>items?, concurrency, max physical versions per key, size class) tuples",
-		Assumptions: []string{"no writer runs during the visit in this check (concurrent writers/GC during visits are exercised by C01/C05 workloads)", "non-termination is reported in two structural forms: a deadlock (every goroutine of the Visitor call parked on call-local synchronisation, identical in four consecutive goroutine-profile samples) and an endless visit (more than items+1000 callback invocations); any other hang ends as inconclusive via the watchdog"},
+		Assumptions: []string{"in every 2nd case one churn goroutine (owning its writer) inserts and deletes newer versions of the keys while the visits run; snapshot creation never overlaps a writer call", "non-termination is reported in two structural forms: a deadlock (every goroutine of the Visitor call parked on call-local synchronisation, identical in four consecutive goroutine-profile samples) and an endless visit (more than items+1000 callback invocations); any other hang ends as inconclusive via the watchdog"},
 		Cases: func(t string) int {
 			if t == "thorough" {
 				return 4000
